@@ -64,6 +64,9 @@ Definition corr_ok (c : case) : bool :=
                             match model_atom (fo_of_table tbl) aa text with
                             | Err e' => err_eqb e e' | Ok _ => false end) atoms
       | None =>
+          (* the attribute lists handed over are dicts (hypothesis [dicts] of the returned-graph theorems) *)
+          forallb (fun b => nodupb (map fst (snd b))) base &&
+          forallb (fun x => forallb (fun c => nodupb (map fst c)) (snd x)) atoms &&
           forallb (fun b => let '(_, text, obs) := b in
                             match parse_graph_base_node (fo_of_table tbl) text with
                             | Ok a => submapb a obs | Err _ => false end) base &&
